@@ -85,6 +85,18 @@ def run_property(mod, tier, seed, replay=None):
     dis = core.compare(lines, model, checked, release) if ok_model else []
     log("tie: %d requests, model %.1fs, impl %.1fs, %d disagreements" % (len(lines), tB - tA, tC - tB, len(dis)))
 
+    # 3b. the model itself is answerable to external oracles (hashlib, KAT files) where the module has one
+    if ok_model and hasattr(mod, "expected"):
+        bad = []
+        for i, ln in enumerate(lines):
+            e = mod.expected(ln)
+            if e is not None and model[i] != (e if isinstance(e, str) else "ok " + (e.hex() if e else "-")):
+                bad.append(ln[:200])
+        cov["model_vs_external_oracle_mismatches"] = len(bad)
+        if bad:
+            print("ERROR: the Lean model disagrees with its external oracle on %d request(s), first: %s" % (len(bad), bad[0]))
+            return 2
+
     # 4. property predicate on the implementation's own answers (independent of the model)
     pv = []
     if hasattr(mod, "violated"):
